@@ -2,6 +2,7 @@ import TvCore.Props.WorldLinks
 import TvCore.Props.C03
 import TvCore.Props.C03Sets
 import TvCore.Props.LinksWorld
+import TvCore.Props.LinksMatured
 #print axioms TV.C03.fixed
 #print axioms TV.C03.witness_rand_overrides_explicit
 #print axioms TV.C03.partial_nocoins
@@ -27,3 +28,12 @@ import TvCore.Props.LinksWorld
 #print axioms TV.LinksWorld.inflight_dropped_twoway
 #print axioms TV.LinksWorld.other_links_unaffected
 #print axioms TV.LinksWorld.ctl_ops_empty_elsewhere
+#print axioms TV.C03.fixed_any_flag
+#print axioms TV.LinksMatured.partition_drops_ready
+#print axioms TV.LinksMatured.partitionOneway_drops_ready
+#print axioms TV.LinksMatured.partition_conserves
+#print axioms TV.LinksMatured.partitioned_inflight_never_delivered_fixed
+#print axioms TV.LinksMatured.partitioned_ready_never_delivered_fixed
+#print axioms TV.LinksMatured.partition_refuses_ready
+#print axioms TV.LinksMatured.witness_F_C03_2
+#print axioms TV.LinksMatured.fixed_F_C03_2
